@@ -14,7 +14,7 @@ Init == [i |-> 0, viol |-> {}, R |-> RInit,
 Hosts == MPeers \cup {"x.r9", ""}
 Push(w, e) == LET a == Append(w, e) IN IF Len(a) > MCfg.node.retx THEN SubSeq(a, Len(a) - MCfg.node.retx + 1, Len(a)) ELSE a
 
-Step(M, st) ==
+StepN(M, st) ==
   LET M0 == [M EXCEPT !.i = @ + 1]
       R  == M0.R
       feed == IsFeed(st)
@@ -49,4 +49,5 @@ Step(M, st) ==
         ELSE A
       A == FoldLeft(OnOut, [pend |-> pend1, win |-> M0.win], out)
   IN [M0 EXCEPT !.viol = @ \cup {[sig |-> s, at |-> M0.i] : s \in sigs}, !.R = RUpdate(R, st), !.pend = A.pend, !.win = A.win]
+Step(M, s0) == StepN(M, Norm(s0))
 =============================================================================
